@@ -47,6 +47,7 @@ type Model struct {
 	facts   map[factKey]factResult
 	demoteMemo map[string]bool
 	validateFn *ssa.Function
+	storeReach map[*ssa.Function]bool
 	la      *LockAnalysis
 
 	problems []string
@@ -92,7 +93,7 @@ func isNamed(t types.Type, pkgPath, name string) bool {
 }
 
 func buildModel(p *Program) *Model {
-	m := &Model{P: p, Sym: newSymbolizer(p), StateConsts: map[string]string{}, guards: map[*ssa.BasicBlock][]Lit{}, facts: map[factKey]factResult{}, demoteMemo: map[string]bool{}}
+	m := &Model{P: p, Sym: newSymbolizer(p), StateConsts: map[string]string{}, guards: map[*ssa.BasicBlock][]Lit{}, facts: map[factKey]factResult{}, demoteMemo: map[string]bool{}, storeReach: map[*ssa.Function]bool{}}
 	m.Funcs = p.libFuncs()
 	lp := p.Leader
 
